@@ -15,6 +15,9 @@ Streams
   F  pipelines: a READER's output (styles, classes, layouts) fed into a WRITER and read again:
      SAMI doc -> SAMIReader -> SAMIWriter / DFXP writers -> reader; DFXP doc -> DFXPReader -> SAMIWriter / DFXPWriter.
   H  2-3 step histories on ONE writer object.
+  FL SAMIParser._find_lang / handle_starttag called directly (stylesheet dict + attribute lists) - oracle ok_find_lang / ok_p_langs
+  CSS SAMIParser._css_parse on language blocks as the writer emits them - model read_styles
+  M  pycaption.base.merge_concurrent_captions on caption sets with runs of equal (start, end) - oracle ok_merge
 Correspondence: observation == extracted model (coq/model/Langs.v).  Property oracle: coq/spec/SpecLangs.v ok_*.
 Comparisons stronger than the statement (tt xml:lang on write, blank-paragraph placement, class names, default language of
 reader lang=None) are counted information or model disagreements, never violations.
@@ -60,6 +63,14 @@ def opt(x):
 def unopt(x):
     """decoded `option`: [] / [v]"""
     return x[0] if x else None
+
+
+def wire_mset(cs):
+    return [[l, [[a, b, [opt(n) for n in nodes]] for a, b, nodes in cues]] for l, cues in cs]
+
+
+def unwire_mset(m):
+    return [[l, [[a, b, [unopt(n) for n in nodes]] for a, b, nodes in cues]] for l, cues in m]
 
 
 def wire_tree(nodes):
@@ -269,6 +280,110 @@ def gen_sami_doc(rng, default):
     return styles, ps, tags_cut, tags_full, doc
 
 
+
+# ------------------------------------------------------------------------------------------------ wave 7 generators
+FL_CLASSES = [("encc", "en"), ("uscc", "en-US"), ("frcc", "fr"), ("decc", "de"), ("zhcc", "zh-Hans"), ("emptycc", ""),
+              ("x", "x"), ("jacc", "\u65e5\u672c\u8a9e")]
+
+
+def varcase(rng, w):
+    return rng.choice([w, w.upper(), w.capitalize(), "".join(ch.upper() if rng.random() < 0.5 else ch for ch in w)])
+
+
+def gen_find_lang(rng):
+    """-> (abstract styles [[class, lang or None]], real styles [[class, {prop: value}]], ps = list of attribute lists).
+    Class keys are lower case (what _css_parse stores) except a rare upper-case key, which no lookup can reach.
+    Attribute NAMES are lower case: html.parser hands them to handle_starttag that way (upper-case names in documents are
+    stream C's business); class VALUES come in any case."""
+    chosen = rng.sample(FL_CLASSES, rng.randint(1, 5))
+    styles = [[c, l] for c, l in chosen] + [[c, None] for c in rng.sample(["narrow", "plain", "wide"], rng.randint(0, 3))]
+    if rng.random() < 0.15:
+        styles.append(["ENCC", "xx"])
+    rng.shuffle(styles)
+    real = [[c, {"lang": l, "color": "white"} if l is not None else {"margin-left": "5%"}] for c, l in styles]
+    with_lang = [c for c, l in styles if l is not None and c.islower()] or ["encc"]
+    without = [c for c, l in styles if l is None] or ["narrow"]
+    ps = []
+    for _ in range(rng.randint(1, 6)):
+        attrs = []
+        for _ in range(rng.choice([0, 1, 1, 2, 2, 3, 4, 5])):
+            r = rng.random()
+            if r < 0.22:
+                attrs.append(["lang", rng.choice(["fr", "en-US", "en", "e", "", "EN", "zh-Hans", "de-AT",
+                                                                 "\u65e5\u672c\u8a9e", "fr"])])
+            elif r < 0.45:
+                attrs.append(["class", varcase(rng, rng.choice(with_lang))])
+            elif r < 0.62:
+                attrs.append(["class", varcase(rng, rng.choice(without))])
+            elif r < 0.74:
+                attrs.append(["class", rng.choice(["unknown", "Other", "", "encc narrow", "narrow encc", " encc"])])
+            else:
+                attrs.append([rng.choice(["id", "style", "xml:lang", "langs", "clas", "title"]),
+                              rng.choice(["fr", "encc", "x1", "", "color: red"])])
+        ps.append(attrs)
+    return styles, real, ps
+
+
+def whole_find(styles, attrs):
+    """the OTHER accepted reading of an inline lang (kept whole, not cut to two letters); Python reference"""
+    d = {}
+    for c, l in styles:
+        d.setdefault(c, l)
+    for a, v in attrs:
+        if a.lower() == "lang":
+            return v
+        if a.lower() == "class" and d.get(v.lower()) is not None:
+            return d[v.lower()]
+    return None
+
+
+def first_seen(tags):
+    out = []
+    for t in tags:
+        if t not in out:
+            out.append(t)
+    return out
+
+
+def gen_css(rng):
+    """language blocks as the SAMI writer emits them, names in any case, classes repeated (a later block wins)"""
+    blocks = [[rng.choice(["ENCC", "encc", "Encc", "FRCC", "frcc", "en-US", "EN-us", "fr", "pt-BR", "narrow2"]),
+               rng.choice(["en", "en-US", "fr", "de", "zh-Hans", "pt-BR"])] for _ in range(rng.randint(1, 6))]
+    css = "<!-- " + "\n".join("    .%s {\n    lang: %s;\n    }" % (c, l) for c, l in blocks) + "   -->"
+    return blocks, css
+
+
+M_SPANS = [(1000000, 2000000), (1000000, 3000000), (2000000, 2000000), (5000000, 6000000), (5000000, 6000001), (0, 0)]
+
+
+def gen_merge_set(rng):
+    """1-3 languages; cue spans from a small pool so that runs of equal (start, end) of length 1-4 form, also a span
+    coming back after another one (A A B A); contents of 1-3 text nodes separated by line breaks"""
+    cs = []
+    for l in rng.sample(LANGS, rng.randint(1, 3)):
+        cues, span = [], None
+        for i in range(rng.choice([0, 1, 2, 3, 4, 5, 6, 7])):
+            if span is None or rng.random() > 0.5:
+                span = rng.choice(M_SPANS)
+            nodes = []
+            for k in range(rng.choice([1, 1, 1, 2, 3])):
+                if nodes:
+                    nodes.append(None)
+                nodes.append("%s c%d n%d" % (l.replace("-", ""), i, k))
+            cues.append([span[0], span[1], nodes])
+        cs.append([l, cues])
+    return cs
+
+
+def runs_of(cues):
+    out = []
+    for c in cues:
+        if out and out[-1][0] == (c[0], c[1]):
+            out[-1][1] += 1
+        else:
+            out.append([(c[0], c[1]), 1])
+    return [n for _, n in out]
+
 # ------------------------------------------------------------------------------------------------ helpers
 def as_capset(langs):
     return [[l, [[c[0], c[1]] for c in cues]] for l, cues in langs]
@@ -303,7 +418,7 @@ def abstract_styles(styles):
 class Acc:
     def __init__(self):
         self.res = {"evaluations": 0, "nontrivial": set(), "violations": [], "disagreements": [], "distribution": {},
-                    "streams": 7, "notes": []}
+                    "streams": 10, "notes": []}
 
     def count(self, k, n=1):
         d = self.res["distribution"]
@@ -321,12 +436,24 @@ def make_reqs(tag, info, default):
     if tag == "A":
         return [(1412, [default, opt(info["tt"]), wire_tree(info["tree"])])]
     if tag == "B":
-        return [(1403 if info["writer"] == "legacy" else 1402, [info["force"], info["cs"]])]
+        if info["writer"] == "main":
+            return [(1402, [info["force"], info["cs"]])]
+        # the writers that merge first: the model gets the UNMERGED set (single_write / legacy_merge_write)
+        return [(1421, [info["force"], int(info["writer"] == "legacy"), wire_mset(info["orig"])])]
     if tag == "C":
         return [(1405, [default, [[c, opt(l)] for c, l in info["styles"]], info["ps"]])]
     if tag == "D":
+        ast = [[c, opt(l)] for c, l in info["astyles"]]
         return [(1407, info["mcs"]),
-                (1411, ["", None, [[c, opt(l)] for c, l in info["astyles"]], [l for l, _ in info["mcs"]]])]
+                (1411, ["", None, ast, [l for l, _ in info["mcs"]]])] + \
+               [(1418, [default, l, opt(cls), ast, [x for x, _ in info["mcs"]]]) for l, cls, _ in info.get("pairs", [])]
+    if tag == "FL":
+        st = [[c, opt(l)] for c, l in info["styles"]]
+        return [(1413, [st, a]) for a in info["ps"]] + [(1415, [default, st, info["ps"]])]
+    if tag == "CSS":
+        return [(1417, info["blocks"])]
+    if tag == "M":
+        return [(1419, wire_mset(info["cs"]))]
     if tag == "E":
         return [(1409, [opt(info["pick"]), info["cs"]])]
     return []
@@ -345,7 +472,8 @@ def dfxp_job(rng, cs, styles, shape, flags, writer=None, force="?"):
     job = {"op": "dfxp_write", "writer": writer, "force": force, "cs": cs}
     if styles:
         job["styles"] = styles
-    return "B", job, {"cs": start_text(want), "force": force or "", "writer": writer, "shape": shape, "flags": flags}
+    return "B", job, {"cs": start_text(want), "force": force or "", "writer": writer, "shape": shape, "flags": flags,
+                      "orig": [[l, [[c[0], c[1], [c[2]]] for c in cues]] for l, cues in cs]}
 
 
 def sami_job(cs, styles, shape, flags):
@@ -353,7 +481,12 @@ def sami_job(cs, styles, shape, flags):
     if styles:
         job["styles"] = styles
     mcs = [[l, [c[:3] for c in cues]] for l, cues in cs]
-    return "D", job, {"cs": mcs, "mcs": mcs, "astyles": abstract_styles(styles), "shape": shape, "flags": flags}
+    pairs = {}
+    for l, cues in cs:
+        for c in cues:
+            pairs.setdefault((l, c[3] if len(c) > 3 else None), []).append([c[0] // 1000 * 1000, c[2]])
+    return "D", job, {"cs": mcs, "mcs": mcs, "astyles": abstract_styles(styles), "shape": shape, "flags": flags,
+                      "pairs": [[l, cls, v] for (l, cls), v in pairs.items()]}
 
 
 def stream_jobs(ctx, default):
@@ -429,6 +562,20 @@ def stream_jobs(ctx, default):
         for via in ("sami", "main"):
             out.append(("F", {"op": "pipeline", "src": "sami", "doc": head + body + "</BODY></SAMI>", "via": via},
                         {"src": "sami", "via": via, "fixed": True}))
+    # wave 7: the real _find_lang / handle_starttag, _css_parse and merge_concurrent_captions called directly
+    for _ in range(ctx.n(150, 1000)):
+        styles, real, ps = gen_find_lang(rng)
+        out.append(("FL", {"op": "find_lang", "styles": real, "ps": ps}, {"styles": styles, "ps": ps}))
+    for _ in range(ctx.n(40, 200)):
+        blocks, css = gen_css(rng)
+        out.append(("CSS", {"op": "css_parse", "css": css}, {"blocks": blocks}))
+    for _ in range(ctx.n(150, 1000)):
+        mcs = gen_merge_set(rng)
+        out.append(("M", {"op": "merge", "cs": mcs}, {"cs": mcs}))
+    for _ in range(ctx.n(30, 200)):          # the caption sets of stream B (their equal-span runs) through the same function
+        cs, styles, shape, flags = gen_capset(rng, styled=False)
+        mcs = [[l, [[c[0], c[1], [c[2]]] for c in cues]] for l, cues in cs]
+        out.append(("M", {"op": "merge", "cs": mcs}, {"cs": mcs, "plain": cs}))
     items = [(tag, job, make_reqs(tag, info, default), info) for tag, job, info in out]
     return items + history_items(ctx, default)
 
@@ -483,6 +630,19 @@ def no_blanks(body):
 def judge(acc, cfg, items, obs, models):
     default = cfg["default"]
     oracle_reqs, pending, k = [], [], 0
+    # wave 7: wherever the harness joins equal-span runs itself (pipelines through the merge-first writers, SRT parts) the
+    # join is checked against the extracted model merge_concurrent on exactly that set
+    jidx = [i for i, (it, o) in enumerate(zip(items, obs))
+            if (it[0] == "F" and it[3]["via"] in ("single", "legacy") and "first" in o) or (it[0] == "E2" and "err" not in o)]
+    jsets = [obs[i]["first"] if items[i][0] == "F" else [[l, [c[:3] for c in cues]] for l, cues in items[i][1]["cs"]] for i in jidx]
+    jmodel = oracle_batch([(1419, wire_mset([[l, [[c[0], c[1], [c[2]]] for c in cues]] for l, cues in js])) for js in jsets])
+    for i, js, jm in zip(jidx, jsets, jmodel):
+        mine = [[l, [[c[0], c[1], c[2]] for c in cues]] for l, cues in merged(js)]
+        theirs = [[l, [[a, b, " ".join(unopt(n) for n in nodes if unopt(n) is not None)] for a, b, nodes in cues]] for l, cues in jm]
+        if mine != theirs:
+            acc.dis(items[i][0], {"config": cfg, "job": items[i][1]}, mine, theirs, "the harness's join of equal-span runs differs from model merge_concurrent")
+        else:
+            acc.count("%s_harness_join_checked_against_model" % items[i][0])
     for (tag, job, reqs, info), o in zip(items, obs):
         m = models[k:k + len(reqs)]
         k += len(reqs)
@@ -549,6 +709,22 @@ def judge(acc, cfg, items, obs, models):
                 acc.res["disagreements"].append({"stream": "E3", "what": "DEFAULT_LANGUAGE_CODE %r, expected %r" % (o["default"], default)})
         elif tag == "F":
             judge_pipeline(acc, inp, info, o)
+        elif tag == "FL":
+            st = [[c, opt(l)] for c, l in info["styles"]]
+            pending.append((tag, inp, info, o, m))
+            for a, f in zip(info["ps"], o["found"]):
+                oracle_reqs.append((1414, [st, a, opt(f)]))
+            oracle_reqs.append((1416, [default, st, info["ps"], [t if t is not None else "\0no-lang-attribute" for t in o["tags"]], o["langs"]]))
+        elif tag == "CSS":
+            got = [[k, l] for k, l in o["styles"]]
+            if got != [[k, unopt(l)] for k, l in m[0]]:
+                acc.dis(tag, inp, got, m[0], "_css_parse: class -> lang dict differs from model read_styles")
+            else:
+                acc.res["nontrivial"].add(("CSS", json.dumps(inp["job"])))
+                acc.count("CSS_class_declared_more_than_once", int(len(got) < len(info["blocks"])))
+        elif tag == "M":
+            pending.append((tag, inp, info, o["merged"], m[0]))
+            oracle_reqs.append((1420, [wire_mset(info["cs"]), wire_mset(o["merged"])]))
     oks = oracle_batch(oracle_reqs)
     j = 0
     for tag, inp, info, got, m in pending:
@@ -581,6 +757,12 @@ def judge(acc, cfg, items, obs, models):
             elif rr_err or not ok2:
                 acc.viol("dfxp-reread-languages", "re-reading the DFXP output gives %r (%s)" % (rr, rr_err), inp, stream=tag)
                 continue
+            if info["writer"] != "main":
+                m, flat = m
+                if flat != info["cs"]:
+                    acc.dis(tag, inp, info["cs"], flat, "the harness's join of equal-span runs differs from model merge_concurrent")
+                    continue
+                acc.count("B_merge_first_writer_model(single_write / legacy_merge_write on the unmerged set)")
             mdoc = m[1] if info["writer"] == "legacy" and m[0] == 0 else m
             mtt = mdoc[0][0] if mdoc[0] else None
             mdivs = [[d[0][0], d[1]] for d in mdoc[1]]
@@ -638,13 +820,78 @@ def judge(acc, cfg, items, obs, models):
                 acc.dis(tag, inp, body, m[0], "blank-paragraph placement differs from the model (C02's rule; not part of C14's statement)")
             elif [list(x) for x in sheet] != [list(x) for x in m[1][1]]:
                 acc.dis(tag, inp, sheet, m[1][1], "written stylesheet language blocks differ from model sheet_langs")
+            elif rr is not None and any([s0, t0] not in dict((l, c) for l, c in rr).get(mm, [])
+                                        for (l0, c0, cues), mm in zip(info.get("pairs", []), m[2:]) for s0, t0 in cues):
+                acc.dis(tag, inp, rr, m[2:], "a written paragraph is re-read under another language than model reread_lang says")
             else:
+                acc.count("D_written_class_read_back(model reread_lang)", len(info.get("pairs", [])))
                 acc.res["nontrivial"].add(("D", json.dumps(inp["job"])))
                 acc.count("D_shape_" + info["shape"])
                 acc.count("D_styled_sets", int(bool(info["flags"].get("styled"))))
                 acc.count("D_same_text_in_several_languages", int(bool(info["flags"].get("same_text"))))
                 acc.count("D_equal_span_runs", int(bool(info["flags"].get("equal_spans"))))
                 acc.count("D_secondary_sync_inserted", int(len(info["cs"]) > 1))
+        elif tag == "FL":
+            n = len(info["ps"])
+            okf, okp = oks[j:j + n], oks[j + n]
+            j += n + 1
+            o, bad = got, False
+            whole = [whole_find(info["styles"], a) for a in info["ps"]]
+            wtags = [w or default for w in whole]
+            empty = [any(whole_find(info["styles"], [[x, v]]) == "" for x, v in a) for a in info["ps"]]
+            acc.count("FL_paragraph_with_an_attribute_naming_the_empty_language", sum(empty))
+            for a, f, ok, w, em in zip(info["ps"], o["found"], okf, whole, empty):
+                if not ok and f != w and not em:
+                    acc.viol("sami-find-lang", "SAMIParser._find_lang(%r) with classes %r found %r" % (a, info["styles"], f), inp, stream=tag)
+                    bad = True
+                    break
+            if bad:
+                continue
+            if not okp and not (o["tags"] == wtags and o["langs"] == first_seen(wtags)) and not any(empty):
+                acc.viol("sami-p-language", "handle_starttag over %r with classes %r: lang attributes %r, langs %r"
+                         % (info["ps"], info["styles"], o["tags"], o["langs"]), inp, stream=tag)
+                continue
+            mf = [unopt(x) for x in m[:n]]
+            if mf != o["found"] or m[n][0] != o["tags"] or m[n][1] != o["langs"]:
+                acc.count("FL_inline_lang_kept_whole(full reading)", int(not all(okf)))
+                acc.dis(tag, inp, [o["found"], o["tags"], o["langs"]], [mf, m[n]], "_find_lang / handle_starttag differ from model find_lang / p_langs")
+                continue
+            acc.res["nontrivial"].add(("FL", json.dumps(inp["job"])))
+            acc.count("FL_paragraphs", n)
+            for a, f in zip(info["ps"], o["found"]):
+                names = [x.lower() for x, _ in a]
+                if f is None or f == "":
+                    acc.count("FL_no_language_found_or_empty(default)")
+                else:
+                    k = next(i for i, (x, v) in enumerate(a) if whole_find(info["styles"], [[x, v]]) is not None)
+                    acc.count("FL_decided_by_%s_attribute" % names[k])
+                    acc.count("FL_silent_attributes_before_the_deciding_one", int(k > 0))
+                    acc.count("FL_class_without_language_before_the_deciding_one", int("class" in names[:k]))
+        elif tag == "M":
+            ok = oks[j]
+            j += 1
+            if not ok:
+                acc.viol("merge-concurrent", "merge_concurrent_captions(%r) = %r" % (info["cs"], got), inp, stream=tag)
+                continue
+            if got != unwire_mset(m):
+                acc.dis(tag, inp, got, unwire_mset(m), "merge_concurrent_captions differs from model merge_concurrent")
+                continue
+            if "plain" in info:
+                # the join the harness applies before judging streams B / E2 / F is the model's
+                mine = [[l, [[c[0], c[1], c[2]] for c in cues]] for l, cues in merged(info["plain"])]
+                theirs = [[l, [[a, b, " ".join(n for n in nodes if n is not None)] for a, b, nodes in cues]] for l, cues in got]
+                if mine != theirs:
+                    acc.dis(tag, inp, theirs, mine, "the harness's own join of equal-span runs differs from the model")
+                    continue
+                acc.count("M_harness_join_checked_against_model")
+            acc.res["nontrivial"].add(("M", json.dumps(inp["job"])))
+            for l, cues in info["cs"]:
+                rs = runs_of(cues)
+                acc.count("M_languages")
+                acc.count("M_runs_of_length_%s" % ("1" if not rs or max(rs) == 1 else "2" if max(rs) == 2 else "3+"))
+                acc.count("M_span_returns_after_another(A B A)", int(len({(c[0], c[1]) for c in cues}) < len(rs)))
+                acc.count("M_language_without_cues", int(not cues))
+                acc.count("M_multi_node_cue_in_a_run", int(any(len(c[2]) > 1 for c in cues) and bool(rs) and max(rs) > 1))
         elif tag == "E":
             ok = oks[j]
             j += 1
@@ -710,7 +957,7 @@ def run(ctx):
     for ci, cfg in enumerate(configs(ctx)):
         items = stream_jobs(ctx, cfg["default"])
         if ci >= 2 and not ctx.thorough:
-            items = [it for k, it in enumerate(items) if it[0] in ("A", "C", "E3", "F") and k % 2 == 0 and it[3].get("hist") is None]
+            items = [it for k, it in enumerate(items) if it[0] in ("A", "C", "E3", "F", "FL") and k % 2 == 0 and it[3].get("hist") is None]
         jobs, slots = [], []
         for it in items:
             h = it[3].get("hist")
@@ -737,18 +984,26 @@ def run(ctx):
                    "(1-5 divs, repeated languages, nested divs, own / document / default language); B: caption sets of 1-4 languages "
                    "(interleaved, coinciding, disjoint times, equal-span runs, styles and classes) x 3 DFXP writers x force; C: SAMI "
                    "documents (class / inline lang / default in every order, blank paragraphs anywhere); D: SAMI writer bodies; "
-                   "E: WebVTT lang=, SRT, reader lang=; F: reader -> writer -> reader pipelines; H: histories on one writer")
+                   "E: WebVTT lang=, SRT, reader lang=; F: reader -> writer -> reader pipelines; H: histories on one writer; "
+                   "FL: SAMIParser._find_lang / handle_starttag on generated stylesheets and attribute lists; CSS: _css_parse on written "
+                   "language blocks; M: merge_concurrent_captions on generated sets with equal-span runs")
     res["clauses"] = {
         "theorem": ["DFXP read model = grouping by effective language for EVERY document (repeated / nested divs included); model "
                     "meets the oracle", "DFXP / legacy write, WebVTT pick: model meets the oracle (distinct language names)",
                     "SAMI read model = grouping of the tagged paragraphs, blank paragraphs counting for the order only; model meets the oracle",
                     "SAMI write: the model's body satisfies the WHOLE oracle ok_sami_body (sorted, per-language cue lists, no foreign "
                     "paragraph) for sets with distinct names, sorted languages, no cue text '&nbsp;'; never-mix for all inputs",
-                    "class layer: the class written for a paragraph resolves, through the written stylesheet, to its language"],
+                    "class layer: the class written for a paragraph resolves, through the written stylesheet, to its language; "
+                    "wave 7: and is read back under that language through the dict the parser rebuilds (later block wins)",
+                    "wave 7: find_lang = the specification (the first attribute naming a language decides; unique; attributes naming "
+                    "none and letter case do not matter); the reader model groups by the SPECIFICATION's tags",
+                    "wave 7: merge_concurrent_captions (loop + merge) = grouping of equal-(start, end) runs: languages untouched, texts "
+                    "per language conserved in order, neighbouring spans differ, idempotent"],
         "correspondence_only": ["bs4 / lxml / html.parser / cssutils layers (documents <-> abstract inputs of the model)",
-                                "how a SAMI paragraph gets its language from its attributes (model find_lang; the oracle's tags are the "
-                                "generator's)", "PYCAPTION_DEFAULT_LANG (unset, en-US, zh-Hans; thorough also x) and hash seeds",
-                                "merge of equal (start, end) runs by the single-positioning / legacy writers (joined by the harness)",
+                                "html.parser handing the attributes of a <P> to handle_starttag (stream C; the oracle's tags there are the "
+                                "generator's; _find_lang / handle_starttag themselves: stream FL against the Coq oracle)", "PYCAPTION_DEFAULT_LANG (unset, en-US, zh-Hans; thorough also x) and hash seeds",
+                                "that the single-positioning / legacy writers call merge_concurrent_captions before writing (streams B / F "
+                                "still join the runs in the harness; stream M checks that join against the model)",
                                 "SRT parts, reader lang= labelling, reader -> writer -> reader pipelines (stream F, oracle in Python: "
                                 "per-language cue lists equal to the format's resolution)"]}
     res["trusted_extra"] = ["harness/c14_worker.py (observation of outputs with lxml / bs4; stylesheet blocks by regular expression)"]
